@@ -3,6 +3,7 @@ MODULES = [
     "specs.helper",
     "specs.mypy_helpers",
     "specs.types",
+    "specs.api",
     "specs.generator",
     "specs.pipeline",
 ]
